@@ -15,6 +15,21 @@ claimed = {
         text="Every feasible path of the chunker (and, as they are added, tokenizer/factories) within the stated string-length bound is explored symbolically from the current SSA; each assertion is an unsat query. This is exhaustive within the bound over the full Unicode alphabet, which sampling cannot give; it says nothing beyond the bound or about the runtime evaluating the emitted closures.",
         note="Trusted: go/ssa front end, the gosmt executor, z3/cvc5; stubs: exporter -> uninterpreted Q. Bounds in evidence.coverage.bounds.",
         design="5.3"),
+    "C11": dict(
+        level="model_checking",
+        text="Each grammar position (24 of them) gets one unconstrained symbolic string; the real validator (and the whole default validator) is executed symbolically and 'accepted iff in the documented language' is an equivalence the solver must prove for every string up to the bound, over all of Unicode. A one-character regex edit changes the RegLan term that is regenerated from the compiled program on every run. Joint reporting and the todo exemption are asserted the same way.",
+        note="Trusted: the reference grammar written in the harness from docs/ (it is a second, independent copy of the language), regexp/syntax -> RegLan translation, solvers. Node-kind errors inside yaml.v3 are behind the YAML stub.",
+        design="5.11"),
+    "C14": dict(
+        level="model_checking",
+        text="The alias table (RegisterPrefixAlias/Alias/decorateImport/Imports) is executed symbolically with symbolic aliases, paths and references under every iteration order of its maps and compared with a segment-wise reference resolver; equal packages <=> equal local names and identifier-shaped local names are solver obligations. Found and fixed: prefix matching without a segment boundary (D2).",
+        note="Trusted: ReplaceAllString contract, solvers; bounds: 2 aliases, strings <= 3 quick / 5 thorough. Pruning of unused imports by x/tools/imports is outside.",
+        design="5.14"),
+    "C18": dict(
+        level="model_checking",
+        text="Version.UnmarshalYAML, NewVersionValidator, ValidateVersion and golang.org/x/mod/semver itself are executed as SSA over character-wise symbolic B and V; the accept/reject truth table of the statement is asserted for every (B,V) in the bound and every counterexample is replayed natively. Found and fixed: every declared version was rejected (D1).",
+        note="Trusted: executor, solvers. Numerals 0..9 for major/patch and 0..99 for minor, suffix <= 1 (quick) / 2 (thorough) ASCII characters; non-ASCII versions are outside (ASCII guard).",
+        design="5.18"),
 }
 
 not_applicable = {
